@@ -11,7 +11,7 @@ import re
 
 from core import enc_str
 
-STYLE_NAMES = ["", "s1", "s2", "s3", "s4", "s5", "s6"]
+STYLE_NAMES = ["", "s1", "s2", "s3", "s4", "s5", "s6", "ps1", "ps2"]
 SID = {n: i for i, n in enumerate(STYLE_NAMES)}
 STRIP = {8, 11, 12, 13}  # documented in rich/control.py: backspace, vertical tab, form feed, carriage return
 
@@ -58,13 +58,16 @@ def render_segments(t, end=""):
 
 
 def norm_ids(ids):
-    """Normal form in any style algebra where "" is the identity and s+s = s: drop "", collapse repeats."""
+    """Normal form of a sequence of style names in the algebra rich's Style.__add__ has for every field
+    ("the last style that sets the field wins"): "" is the identity, s+s = s and x+y+x = y+x.  Two sequences
+    combine to the same Style for every interpretation of the names iff they agree after dropping "" and
+    keeping only the LAST occurrence of each name (free right-regular band)."""
     out = []
-    for i in ids:
-        if i == "" or (out and out[-1] == i):
+    for i in reversed(ids):
+        if i == "" or i in out:
             continue
         out.append(i)
-    return tuple(out)
+    return tuple(reversed(out))
 
 
 # ------------------------------------------------------------------------------------------ wire encoding
